@@ -5,7 +5,9 @@ use crate::verif::nodes::master::{AssocCfg, MasterCfg};
 use crate::verif::refcodec::app::{self as refapp};
 use crate::verif::rng::{mix, Rng};
 use crate::verif::runner::{erase, Codec, Outcome, Property, Scenario, Tier, Violation};
-use crate::verif::smast::{self, EchoMutation, MOp, MastRun, Reply, SeriesDev, SmastCase, UserKind};
+use crate::verif::smast::{
+    self, EchoMutation, MOp, MastRun, Reply, SeriesDev, SmastCase, UserKind,
+};
 use std::collections::{BTreeMap, BTreeSet};
 
 pub struct AcceptScenario;
@@ -22,7 +24,9 @@ pub fn gen_user_request(rng: &mut Rng) -> UserKind {
         0..=4 => UserKind::ReadClasses(*rng.pick(&[0x0Fu8, 0x07, 0x08, 0x01])),
         5 | 6 => UserKind::Command {
             sbo: rng.bool(),
-            headers: vec![(0..rng.urange(1, 2)).map(|i| (rng.below(5) as u8, i as u16, rng.chance(1, 4))).collect()],
+            headers: vec![(0..rng.urange(1, 2))
+                .map(|i| (rng.below(5) as u8, i as u16, rng.chance(1, 4)))
+                .collect()],
         },
         7 => UserKind::TimeSync(rng.range(1, 3) as u8),
         8 => UserKind::Empty(24),
@@ -47,7 +51,11 @@ pub fn gen_deviation(rng: &mut Rng, other_addr: u16) -> Reply {
             Reply::Objects(rng.bytes(n))
         }
         13 => Reply::Dup,
-        14 => Reply::UnsolThenFaithful { seq: rng.below(16) as u8, data: rng.bool(), con: rng.chance(3, 4) },
+        14 => Reply::UnsolThenFaithful {
+            seq: rng.below(16) as u8,
+            data: rng.bool(),
+            con: rng.chance(3, 4),
+        },
         15 => Reply::WithCon,
         16 => Reply::Late(rng.range(1, 7000)),
         _ => Reply::Iin(*rng.pick(&[0x80u8, 0x10, 0x02, 0x0E]), 0x08),
@@ -115,13 +123,35 @@ impl Scenario for AcceptScenario {
         }
         let other = 1025;
         let mut script = vec![MOp::Enable, MOp::Sleep(1)];
+        if rng.chance(1, 5) {
+            // start-up gating: the integrity poll is answered late, data arrives unsolicited before it has completed and is
+            // retried unchanged afterwards - the retry is the first copy the master accepts
+            cfg.assocs[0].startup_integrity = 0x0F;
+            let late = rng.range(300, 900);
+            script = vec![MOp::Replies { assoc: 0, replies: vec![Reply::Late(late)] }, MOp::Enable, MOp::Sleep(rng.range(1, late.min(200)))];
+            script.push(MOp::Unsol { assoc: 0, seq: rng.below(16) as u8, data: true, con: true });
+            script.push(MOp::Sleep(late + 200));
+            for _ in 0..rng.urange(1, 3) {
+                script.push(MOp::UnsolRepeat);
+                script.push(MOp::Sleep(rng.range(0, 50)));
+            }
+        }
         let rounds = rng.urange(1, 6);
         for _ in 0..rounds {
             if rng.chance(1, 3) {
                 // mostly short series; sometimes longer than the 4-bit sequence space
-                let n = if rng.chance(1, 6) { rng.urange(15, 20) } else { rng.urange(1, 3) };
-                let fragments: Vec<u8> = (0..n).map(|_| if n > 3 { 1 } else { rng.range(1, 4) as u8 }).collect();
-                script.push(MOp::ReadShape { assoc: 0, fragments });
+                let n = if rng.chance(1, 6) {
+                    rng.urange(15, 20)
+                } else {
+                    rng.urange(1, 3)
+                };
+                let fragments: Vec<u8> = (0..n)
+                    .map(|_| if n > 3 { 1 } else { rng.range(1, 4) as u8 })
+                    .collect();
+                script.push(MOp::ReadShape {
+                    assoc: 0,
+                    fragments,
+                });
                 if n > 1 && rng.chance(1, 2) {
                     let at = match rng.below(4) {
                         0 => 1,
@@ -142,7 +172,12 @@ impl Scenario for AcceptScenario {
             }
             // unsolicited traffic while idle
             if rng.chance(1, 4) {
-                script.push(MOp::Unsol { assoc: 0, seq: rng.below(16) as u8, data: rng.bool(), con: rng.chance(3, 4) });
+                script.push(MOp::Unsol {
+                    assoc: 0,
+                    seq: rng.below(16) as u8,
+                    data: rng.bool(),
+                    con: rng.chance(3, 4),
+                });
                 // the outstation retries while its confirmation is lost
                 for _ in 0..*rng.pick(&[0usize, 0, 1, 1, 2, 3]) {
                     script.push(MOp::UnsolRepeat);
@@ -160,13 +195,24 @@ impl Scenario for AcceptScenario {
             if !replies.is_empty() {
                 script.push(MOp::Replies { assoc: 0, replies });
             }
-            script.push(MOp::User { assoc: 0, kind: gen_user_request(rng) });
+            script.push(MOp::User {
+                assoc: 0,
+                kind: gen_user_request(rng),
+            });
             if rng.chance(1, 4) {
                 // unsolicited in the middle of the task
-                script.push(MOp::Unsol { assoc: 0, seq: rng.below(16) as u8, data: rng.bool(), con: rng.bool() });
+                script.push(MOp::Unsol {
+                    assoc: 0,
+                    seq: rng.below(16) as u8,
+                    data: rng.bool(),
+                    con: rng.bool(),
+                });
             }
             if rng.chance(1, 6) {
-                script.push(MOp::Raw { src: 1024, bytes: vec![0xC0 | rng.below(16) as u8, 129, 0, 0] });
+                script.push(MOp::Raw {
+                    src: 1024,
+                    bytes: vec![0xC0 | rng.below(16) as u8, 129, 0, 0],
+                });
             }
             script.push(MOp::Sleep(match rng.below(3) {
                 0 => timeout + 1,
@@ -178,7 +224,11 @@ impl Scenario for AcceptScenario {
             cfg,
             chunk: rng.below(5) as u8,
             chunk_seed: rng.next_u64(),
-            latency: if rng.chance(1, 3) { (rng.below(50), rng.below(50)) } else { (0, 0) },
+            latency: if rng.chance(1, 3) {
+                (rng.below(50), rng.below(50))
+            } else {
+                (0, 0)
+            },
             script,
             tail_ms: 12_000,
         }
@@ -209,6 +259,8 @@ struct Tx {
     delivered: Vec<f64>,
     confirms: u32,
     is_read_response: bool,
+    /// held back by the start-up gate: nothing of it may reach the handler
+    gated: bool,
 }
 
 #[derive(Clone, Debug)]
@@ -225,7 +277,10 @@ struct Req {
     uncertain: bool,
 }
 
-pub fn analyse(case: &SmastCase, run: &MastRun) -> (Option<Violation>, bool, u64, Vec<(String, u64)>) {
+pub fn analyse(
+    case: &SmastCase,
+    run: &MastRun,
+) -> (Option<Violation>, bool, u64, Vec<(String, u64)>) {
     // everything is judged in the order it happened at the master: with latency a fragment sent before a request may arrive after it
     let hist = master_time_history(case, run);
     // instants at which the master started or failed a task for an association on its own initiative (user request, timer):
@@ -233,21 +288,43 @@ pub fn analyse(case: &SmastCase, run: &MastRun) -> (Option<Violation>, bool, u64
     let mut boundaries: Vec<(u16, u64, u64)> = Vec::new();
     for (order, h) in &hist {
         match h {
-            H::TaskStart { t, assoc, .. } | H::TaskFail { t, assoc, .. } => boundaries.push((*assoc, *t, *order)),
-            H::Request { t, dest, worder, .. } => boundaries.push((*dest, t.saturating_sub(case.latency.0), *worder)),
+            H::TaskStart { t, assoc, .. } | H::TaskFail { t, assoc, .. } => {
+                boundaries.push((*assoc, *t, *order))
+            }
+            H::Request {
+                t, dest, worder, ..
+            } => boundaries.push((*dest, t.saturating_sub(case.latency.0), *worder)),
             _ => {}
         }
     }
     let mut counters: BTreeMap<String, u64> = BTreeMap::new();
     let mut bump = |k: &str| *counters.entry(k.to_string()).or_insert(0) += 1;
     let assoc_addrs: BTreeSet<u16> = case.cfg.assocs.iter().map(|a| a.address).collect();
-    let timeout_of = |addr: u16| case.cfg.assocs.iter().find(|a| a.address == addr).map(|a| a.response_timeout_ms).unwrap_or(5000);
-    let startup_gates = |addr: u16| case.cfg.assocs.iter().find(|a| a.address == addr).map(|a| a.startup_integrity != 0).unwrap_or(false);
+    let timeout_of = |addr: u16| {
+        case.cfg
+            .assocs
+            .iter()
+            .find(|a| a.address == addr)
+            .map(|a| a.response_timeout_ms)
+            .unwrap_or(5000)
+    };
+    let startup_gates = |addr: u16| {
+        case.cfg
+            .assocs
+            .iter()
+            .find(|a| a.address == addr)
+            .map(|a| a.startup_integrity != 0)
+            .unwrap_or(false)
+    };
 
     let mut txs: Vec<Tx> = Vec::new();
     let mut outstanding: BTreeMap<u16, Req> = BTreeMap::new();
     let mut task_alive: BTreeMap<u16, bool> = BTreeMap::new();
     let mut last_unsol: BTreeMap<u16, Vec<u8>> = BTreeMap::new();
+    // has the start-up integrity poll of this connection completed (and no restart indication been seen since)?
+    let mut integrity_done: BTreeMap<u16, bool> = BTreeMap::new();
+    // unsolicited transmissions not yet taken by the master's application layer: indices into `txs` per source
+    let mut pending_unsol: BTreeMap<u16, Vec<usize>> = BTreeMap::new();
     let mut tie: BTreeMap<u16, u64> = BTreeMap::new();
     let mut nontrivial = false;
     let mut fp = 0u64;
@@ -261,12 +338,21 @@ pub fn analyse(case: &SmastCase, run: &MastRun) -> (Option<Violation>, bool, u64
             break;
         }
         match h {
-            H::Connected { .. } | H::Closed { .. } => {
+            // (the master's own view of the connection: its first task may start before the outstation has noticed the connection)
+            H::Client { .. } => {
                 outstanding.clear();
                 task_alive.clear();
                 last_unsol.clear();
+                integrity_done.clear();
+                pending_unsol.clear();
             }
-            H::TaskStart { t, assoc, func, seq, .. } => {
+            H::TaskStart {
+                t,
+                assoc,
+                func,
+                seq,
+                ..
+            } => {
                 task_alive.insert(*assoc, true);
                 // the first request of the task is written right here
                 outstanding.insert(
@@ -283,8 +369,13 @@ pub fn analyse(case: &SmastCase, run: &MastRun) -> (Option<Violation>, bool, u64
                     },
                 );
             }
-            H::TaskSuccess { assoc, task, seq, .. } => {
+            H::TaskSuccess {
+                assoc, task, seq, ..
+            } => {
                 task_alive.insert(*assoc, false);
+                if task == "StartupIntegrity" {
+                    integrity_done.insert(*assoc, true);
+                }
                 // success only via an acceptable stream: the last accepted fragment for the outstanding request must be valid and final
                 if let Some(req) = outstanding.get(assoc).filter(|r| !r.uncertain) {
                     // requests that expect an empty response: the library deliberately ignores unexpected objects in the reply,
@@ -295,7 +386,10 @@ pub fn analyse(case: &SmastCase, run: &MastRun) -> (Option<Violation>, bool, u64
                             && t.src == *assoc
                             && t.order > req.pos
                             && t.bytes[0] & 0x40 != 0
-                            && (!t.must_reject || (!objects_matter && (t.kind == "objects-replaced" || t.kind == "truncated") && t.bytes.len() >= 4))
+                            && (!t.must_reject
+                                || (!objects_matter
+                                    && (t.kind == "objects-replaced" || t.kind == "truncated")
+                                    && t.bytes.len() >= 4))
                     });
                     if !ok {
                         violation = Some(Violation::new(
@@ -311,7 +405,9 @@ pub fn analyse(case: &SmastCase, run: &MastRun) -> (Option<Violation>, bool, u64
                 task_alive.insert(*assoc, false);
                 outstanding.remove(assoc);
             }
-            H::Request { t, dest, seq, func, .. } => {
+            H::Request {
+                t, dest, seq, func, ..
+            } => {
                 // the master wrote this request `latency.0` ms before the outstation saw it
                 let written = t.saturating_sub(case.latency.0);
                 if let Some(r) = outstanding.get_mut(dest) {
@@ -337,7 +433,15 @@ pub fn analyse(case: &SmastCase, run: &MastRun) -> (Option<Violation>, bool, u64
                 );
                 fp = mix(&[fp, 1, *func as u64]);
             }
-            H::PeerTx { t, src, bytes, kind, valid, answers, .. } => {
+            H::PeerTx {
+                t,
+                src,
+                bytes,
+                kind,
+                valid,
+                answers,
+                ..
+            } => {
                 if bytes.len() < 2 {
                     continue;
                 }
@@ -359,25 +463,27 @@ pub fn analyse(case: &SmastCase, run: &MastRun) -> (Option<Violation>, bool, u64
                     delivered: Vec::new(),
                     confirms: 0,
                     is_read_response: false,
+                    gated: false,
                 };
-                if func == refapp::FUNC_UNSOL_RESPONSE && ctrl.uns && ctrl.fir && ctrl.fin && refapp::decode_fragment(bytes).is_ok() {
+                if func == refapp::FUNC_UNSOL_RESPONSE
+                    && ctrl.uns
+                    && ctrl.fir
+                    && ctrl.fin
+                    && refapp::decode_fragment(bytes).is_ok()
+                {
                     // an unsolicited response
                     if !assoc_addrs.contains(src) {
                         tx.must_reject = true;
                     } else {
-                        let repeat = last_unsol.get(src) == Some(bytes);
-                        last_unsol.insert(*src, bytes.clone());
-                        if repeat {
-                            // confirmed but not delivered again
-                            tx.must_accept = true;
-                            tx.values.clear();
-                            bump("probe.unsolicited_repeat");
-                        } else if !startup_gates(*src) || tx.values.is_empty() {
-                            tx.must_accept = true;
-                        }
-                        // with start-up gating configured, data before integrity completion is C17's subject
+                        // judged when the master's application layer actually takes it (hook H5): fragments arriving in one
+                        // millisecond are processed one by one, and whether the integrity poll has completed by then matters
+                        pending_unsol.entry(*src).or_default().push(txs.len());
                     }
-                } else if func == refapp::FUNC_RESPONSE && boundaries.iter().any(|(a, bt, bo)| a == src && bt == t && order < bo) {
+                } else if func == refapp::FUNC_RESPONSE
+                    && boundaries
+                        .iter()
+                        .any(|(a, bt, bo)| a == src && bt == t && order < bo)
+                {
                     // tie with a task boundary: don't care
                     tie.insert(*src, *t);
                     bump("probe.arrival_ties_with_task_boundary");
@@ -389,16 +495,34 @@ pub fn analyse(case: &SmastCase, run: &MastRun) -> (Option<Violation>, bool, u64
                     // (a stale answer to an earlier request that was held up, a truncation right after the IIN, a raw injection).
                     // The master may accept it; from then on the oracle no longer knows the state of this request.
                     let indistinguishable = |r: &Req| {
-                        !ctrl.uns && ctrl.seq == r.next_seq && ctrl.fir == r.expect_fir && *t <= r.deadline && (refapp::decode_fragment(bytes).is_ok() || refapp::response_parses_leniently(bytes))
+                        !ctrl.uns
+                            && ctrl.seq == r.next_seq
+                            && ctrl.fir == r.expect_fir
+                            && *t <= r.deadline
+                            && (refapp::decode_fragment(bytes).is_ok()
+                                || refapp::response_parses_leniently(bytes))
                     };
                     match req {
-                        Some(mut r) if alive && !r.finished && (r.uncertain || (!(*valid && *answers == r.order && r.order.is_some()) && indistinguishable(&r))) => {
+                        Some(mut r)
+                            if alive
+                                && !r.finished
+                                && (r.uncertain
+                                    || (!(*valid && *answers == r.order && r.order.is_some())
+                                        && indistinguishable(&r))) =>
+                        {
                             r.uncertain = true;
                             outstanding.insert(*src, r);
                             bump("probe.indistinguishable_deviation");
                         }
-                        Some(mut r) if alive && *valid && *answers == r.order && r.order.is_some() && !r.finished => {
-                            if *t < r.deadline && ctrl.seq == r.next_seq && ctrl.fir == r.expect_fir {
+                        Some(mut r)
+                            if alive
+                                && *valid
+                                && *answers == r.order
+                                && r.order.is_some()
+                                && !r.finished =>
+                        {
+                            if *t < r.deadline && ctrl.seq == r.next_seq && ctrl.fir == r.expect_fir
+                            {
                                 tx.must_accept = true;
                                 tx.is_read_response = r.func == refapp::FUNC_READ;
                                 // the series continues with the next sequence number and a fresh timeout
@@ -442,8 +566,61 @@ pub fn analyse(case: &SmastCase, run: &MastRun) -> (Option<Violation>, bool, u64
                     // deviating copies of a response carry the same values as the correct one
                     value_owner.entry(v.to_bits()).or_default().push(idx);
                 }
-                fp = mix(&[fp, 2, tx.must_accept as u64, tx.must_reject as u64, (kind.len() as u64) % 17, tx.uns as u64]);
+                fp = mix(&[
+                    fp,
+                    2,
+                    tx.must_accept as u64,
+                    tx.must_reject as u64,
+                    (kind.len() as u64) % 17,
+                    tx.uns as u64,
+                ]);
                 txs.push(tx);
+            }
+            H::MasterRx { src, bytes, .. } => {
+                // a restart indication the master may act on closes the start-up gate again (C17); it counts from the moment
+                // the fragment carrying it is processed, whether or not the master accepts that fragment (closing it too
+                // often only makes unsolicited data don't-care for longer)
+                let closes = bytes.len() >= 4 && bytes[1] >= 129 && bytes[2] & 0x80 != 0;
+                if closes && bytes[1] != refapp::FUNC_UNSOL_RESPONSE {
+                    integrity_done.insert(*src, false);
+                }
+                if bytes.len() >= 4 && bytes[1] == refapp::FUNC_UNSOL_RESPONSE {
+                    // the oldest transmission of exactly these octets from that source that has not been judged yet
+                    let idx = pending_unsol.get_mut(src).and_then(|q| {
+                        let k = q.iter().position(|i| txs[*i].bytes == *bytes)?;
+                        Some(q.remove(k))
+                    });
+                    if let Some(i) = idx {
+                        // with start-up gating configured, data before the integrity poll has completed is C17's subject: not
+                        // judged here - and not remembered either, a fragment that was held back is no basis for calling its
+                        // retry a repeat
+                        // (the indications of the fragment itself are processed first)
+                        if bytes[2] & 0x80 != 0 {
+                            integrity_done.insert(*src, false);
+                        }
+                        let gated = startup_gates(*src) && bytes.len() > 4 && !integrity_done.get(src).copied().unwrap_or(false);
+                        let repeat = !gated && last_unsol.get(src) == Some(bytes);
+                        if !gated {
+                            last_unsol.insert(*src, bytes.clone());
+                        }
+                        if gated {
+                            txs[i].gated = true;
+                            bump("probe.unsolicited_data_while_gated");
+                        } else if repeat {
+                            // confirmed but not delivered again
+                            txs[i].must_accept = true;
+                            for v in txs[i].values.clone() {
+                                if let Some(owners) = value_owner.get_mut(&v.to_bits()) {
+                                    owners.retain(|o| *o != i);
+                                }
+                            }
+                            txs[i].values.clear();
+                            bump("probe.unsolicited_repeat");
+                        } else {
+                            txs[i].must_accept = true;
+                        }
+                    }
+                }
             }
             H::Meas { assoc, m, .. } => match value_owner.get(&m.value.to_bits()).cloned() {
                 None => {
@@ -458,8 +635,22 @@ pub fn analyse(case: &SmastCase, run: &MastRun) -> (Option<Violation>, bool, u64
                     let pick = owners
                         .iter()
                         .copied()
-                        .find(|i| !txs[*i].must_reject && txs[*i].src == *assoc && txs[*i].delivered.iter().filter(|v| **v == m.value).count() < txs[*i].values.iter().filter(|v| **v == m.value).count())
-                        .or_else(|| owners.iter().copied().find(|i| !txs[*i].must_reject && txs[*i].src == *assoc));
+                        .find(|i| {
+                            !txs[*i].must_reject
+                                && !txs[*i].gated
+                                && txs[*i].src == *assoc
+                                && txs[*i].delivered.iter().filter(|v| **v == m.value).count()
+                                    < txs[*i].values.iter().filter(|v| **v == m.value).count()
+                        })
+                        .or_else(|| {
+                            owners
+                                .iter()
+                                .copied()
+                                .find(|i| !txs[*i].must_reject && !txs[*i].gated && txs[*i].src == *assoc)
+                        })
+                        // whether data held back by the start-up gate is delivered is C17's subject (this oracle closes the gate
+                        // conservatively): such a fragment may own the value, as a last resort
+                        .or_else(|| owners.iter().copied().find(|i| !txs[*i].must_reject && txs[*i].gated && txs[*i].src == *assoc));
                     match pick {
                         Some(i) => txs[i].delivered.push(m.value),
                         None => {
@@ -488,14 +679,25 @@ pub fn analyse(case: &SmastCase, run: &MastRun) -> (Option<Violation>, bool, u64
             },
             H::Confirm { dest, seq, uns, .. } => {
                 // must be justified by an accepted fragment of that outstation asking for confirmation
-                let cand = txs
-                    .iter_mut()
-                    .rev()
-                    .find(|t| t.src == *dest && t.con && t.uns == *uns && t.seq == *seq && t.order < pos && t.confirms == 0 && !t.must_reject);
+                let cand = txs.iter_mut().rev().find(|t| {
+                    t.src == *dest
+                        && t.con
+                        && t.uns == *uns
+                        && t.seq == *seq
+                        && t.order < pos
+                        && t.confirms == 0
+                        && !t.must_reject
+                });
                 match cand {
                     Some(t) => t.confirms += 1,
                     None => {
-                        let rejected = txs.iter().rev().find(|t| t.src == *dest && t.con && t.uns == *uns && t.seq == *seq && t.order < pos);
+                        let rejected = txs.iter().rev().find(|t| {
+                            t.src == *dest
+                                && t.con
+                                && t.uns == *uns
+                                && t.seq == *seq
+                                && t.order < pos
+                        });
                         violation = Some(Violation::new(
                             "C15/confirm-without-accepted-fragment",
                             match rejected {
@@ -525,7 +727,11 @@ pub fn analyse(case: &SmastCase, run: &MastRun) -> (Option<Violation>, bool, u64
                 };
                 violation = Some(Violation::new(
                     "C15/accepted-fragment-not-delivered-exactly-once",
-                    format!("{} {}", kind, if tx.uns { "unsolicited" } else { "solicited" }),
+                    format!(
+                        "{} {}",
+                        kind,
+                        if tx.uns { "unsolicited" } else { "solicited" }
+                    ),
                     format!(
                         "fragment #{} '{}' ({}) carries {:?}, the ReadHandler received {:?}",
                         i,
